@@ -77,7 +77,7 @@ func genC14(t *rapid.T) c14Case {
 		}
 		if c.State == "faulty" {
 			r.Shape = pick(t, "fshape", "ok", "ok", "ok", r.Shape)
-			r.FaultAt = pick(t, "fault_at", 1, 1, 1, 2, 2, 3, 4, 5, 7)
+			r.FaultAt = pick(t, "fault_at", 1, 1, 1, 2, 2, 3, 4, 5, 6, 7, 8, 9)
 			if rapid.IntRange(0, 9).Draw(t, "fprog") < 8 {
 				r.Prog, r.Vers = nfsx.ProgNFS, 3
 				r.Proc = uint32(rapid.IntRange(1, 21).Draw(t, "fproc"))
